@@ -484,7 +484,7 @@ func c03CheckCases(ctx *Ctx, res *Result, cases []c03Case, count bool) {
 		rep := c03CaseReplay(c)
 		// 1. the property itself on the implementation's output
 		if specBad[i] {
-			res.AddViolation(Violation{Key: "C03/unit/log-mismatch/" + kindsOf(im.entries),
+			res.AddViolation(Violation{Key: "C03/unit/log-mismatch",
 				What:       fmt.Sprintf("Autofix script (%s): the file written by SaveAutofixChanges is not the old file with the logged actions applied: old %q, log %v, new %q", mode, c.Content, im.obs.Log, im.r.Disk),
 				FoundInput: true, Size: c03CaseSize(c), Replay: rep})
 			continue
